@@ -97,8 +97,14 @@ def _semantic_relation(crate, e):
     import ast
     try:
         ref = ast.literal_eval(e['cases'])
-        cur = rules_sem.pure_lin_cases(crate, e['path'])
+        cur = rules_sem.pure_lin_cases(crate, e['path'], allow_calls=True)
         if cur is None:
+            return None
+        # the effects (mutating calls on the cache etc.) must be the very same lines
+        b = crate.body(e['path'])
+        got, _ = S.summarise(crate, b)
+        eff = lambda ls: [l for l in ls if not l.startswith(('RET ', 'CASE '))]
+        if eff(got.split('\n')) != eff(e['summary']):
             return None
         wf = rules_sem.self_type_wf(crate, e['path'])
         # divisors are at least 1 on well-formed input (a zero divisor panics in every profile)
